@@ -6,7 +6,7 @@ import ast
 from framelint.core import rule, Ctx
 from framelint.srcmodel import walk_own, AnalysisError, FuncInfo
 from framelint.canon import (Canon, CanonOptions, canon_function, show, S, to_poly, mk_lt, mk_and, mk_not, mk_eq, k_num,
-                             k_str, contains, skey, atoms_of, Sigma, diff_paths, mk_call, K_TRUE)
+                             k_str, contains, skey, atoms_of, Sigma, diff_paths, mk_call, K_TRUE, K_NONE)
 from framelint.cfg import EXIT, ENTRY
 from framelint.kinds import IndexSpec, IndexTyper
 from .common import (eq_constants, GEOM, DIE, PARSE_DIE, YWRITE, sigma_xy, stmt_calls, exit_facts, facts_text, call_name, norm_stmt,
@@ -416,17 +416,13 @@ def r3(ctx: Ctx) -> None:
     if not tag_ok:
         ctx.report(fr.where, "reader-tag-valid", "parse_die_rectangle does not restrict the tag to valid identifiers or the blockage tag",
                    lineno=fr.node.lineno)
-    # four numerics >= 0: assert in 'for i in range(4)'
-    num_ok = False
-    for node, a, conj, fs in assert_conjuncts(ctx, fr):
-        loops = enclosing_loops(fr, a)
-        if loops and isinstance(loops[-1], ast.For):
-            it = ctx.cfg(fr).canon().expr(loops[-1].iter)
-            v = ctx.cfg(fr).canon().expr_store(loops[-1].target)
-            if it == ("c", ("g", "range"), (k_num(4),), ()):
-                e = ("s", r, v)
-                if ("c", ("g", "is_number"), (e,), ()) in conj and mk_not(mk_lt(e, k_num(0))) in conj:
-                    num_ok = True
+    # four numerics >= 0: in the normal form the loop over range(4) (or all(...) over the four fields) is one assertion per field
+    cfr = canon_function(fr, ctx.model)
+    nf = set()
+    for st in cfr:
+        if st[0] == "assert":
+            nf |= set(st[1][1]) if st[1][0] == "and" else {st[1]}
+    num_ok = all(("c", ("g", "is_number"), (("s", r, k_num(i)),), ()) in nf and mk_not(mk_lt(("s", r, k_num(i)), k_num(0))) in nf for i in range(4))
     ctx.site(fr.where, "obligation: x, y, w, h numeric and >= 0 (all four)")
     if not num_ok:
         ctx.report(fr.where, "reader-numeric-fields", "parse_die_rectangle does not check all four of x, y, w, h to be numbers >= 0",
@@ -462,7 +458,8 @@ def r4(ctx: Ctx) -> None:
         ok = contains(c, pt) and contains(c, sh)
         dicts = atoms_of(c, lambda x: x[0] == "dict") + atoms_of(c, lambda x: x[0] == "c" and x[1] == ("g", "Rectangle"))
         tag_ok = any(contains(d, idx(4)) for d in dicts) or contains(c, ("set", ("s", ("v", 0), k_str("region")), idx(4))) or \
-            any(st[0] == "set" and st[2] == idx(4) and contains(st[1], k_str(kw_value(ctx, "KW_REGION"))) for st in atoms_of(c, lambda x: x[0] == "set" and len(x) == 3))
+            any(st[0] == "set" and (st[2] == idx(4) or (st[2][0] == "ite" and {st[2][2], st[2][3]} == {idx(4), K_NONE}))
+                and contains(st[1], k_str(kw_value(ctx, "KW_REGION"))) for st in atoms_of(c, lambda x: x[0] == "set" and len(x) == 3))
         if not ok or not tag_ok:
             ctx.report(f.where, "descriptor-read", f"{q} does not build Point(r[0], r[1]), Shape(r[2], r[3]) and region r[4]",
                        lineno=f.node.lineno)
@@ -506,7 +503,7 @@ def r4(ctx: Ctx) -> None:
         ok = body in ((("expr", ("ite", cond, blk, spc)),), (("if", cond, (("expr", blk),), (("expr", spc),)),))
     fx = [st for st in ci if st[0] == "set" and st[1] == ("a", ("self",), "_fixed")]
     netl = ("p", 1)
-    from framelint.canon import mk_ite, K_NONE
+    from framelint.canon import mk_ite
     want_fx = mk_ite(("cmp", "is", netl, K_NONE), ("list", ()), ("c", ("a", netl, "fixed_rectangles"), (), ()))
     ctx.site(init.where, "the fixed regions are all fixed rectangles of the netlist (none dropped), [] without a netlist")
     if len(fx) != 1 or deref(fx[0][2], defs_) != want_fx:
